@@ -778,6 +778,10 @@ def c06_family(tier):
     mk('chain3-required/mid', ch(True), ['mid'], [2000])
     mk('chain3-required/snk', ch(True), ['snk'], [2000])
 
+    # ... while another, not required consumer stays alive and keeps asking (the requirement is not only a start-up gate)
+    mk('tee-required/a', [src(N, required='a', period=period), sink('a', ['src']), sink('b', ['src;main>x'])], ['a'], [2000])
+    mk('tee-required-graceful/a', [src(N, required='a', period=period), sink('a', ['src']), sink('b', ['src;main>x'])], ['a'], [2000], kinds=('graceful',))
+
     if full:
         mk('chain3-ct5000/mid', ch(False), ['mid'], [0, 5200], ct=5000)
         mk('tee-ct5000/a', tee(), ['a'], [0, 5200], ct=5000)
